@@ -31,7 +31,7 @@ pub enum Out { None, Scalar(String), Stream(String) }
 
 #[derive(Clone, Debug, Serialize, PartialEq)]
 #[serde(tag = "t", content = "c")]
-pub enum FailArg { Lit(i64, String), Scalar(String), ScalarLens(String, String), LastError, Error }
+pub enum FailArg { Lit(i64, String), Scalar(String), ScalarLens(String, String), CanonLens(String, String), LastError, Error }
 
 #[derive(Clone, Debug, Serialize, PartialEq)]
 #[serde(tag = "t", content = "c")]
@@ -127,7 +127,7 @@ impl Instr {
             Instr::Fail(f) => match f {
                 FailArg::Lit(c, m) => write!(o, "(fail {} {})", c, quote(m)).unwrap(),
                 FailArg::Scalar(n) => write!(o, "(fail {n})").unwrap(),
-                FailArg::ScalarLens(n, l) => write!(o, "(fail {n}{l})").unwrap(),
+                FailArg::ScalarLens(n, l) | FailArg::CanonLens(n, l) => write!(o, "(fail {n}{l})").unwrap(),
                 FailArg::LastError => o.push_str("(fail %last_error%)"),
                 FailArg::Error => o.push_str("(fail :error:)"),
             },
@@ -164,6 +164,39 @@ impl Instr {
             _ => {}
         });
         u
+    }
+    /// map / canon-lens features a script uses (for the coverage counters of the correspondence runs)
+    pub fn map_features(&self) -> Vec<&'static str> {
+        let mut v: Vec<&'static str> = vec![];
+        let mut add = |s: &'static str, v: &mut Vec<&'static str>| if !v.contains(&s) { v.push(s) };
+        let val = |x: &Val, v: &mut Vec<&'static str>| match x {
+            Val::CanonLens(..) => { if !v.contains(&"canon_lens") { v.push("canon_lens") } }
+            Val::CanonMap(_) => { if !v.contains(&"canon_map_operand") { v.push("canon_map_operand") } }
+            Val::CanonMapLens(..) => { if !v.contains(&"canon_map_lens") { v.push("canon_map_lens") } }
+            _ => {}
+        };
+        self.visit(&mut |i| match i {
+            Instr::Call { peer, svc, func, args, .. } => {
+                for x in [peer, svc, func] { if matches!(x, Val::CanonLens(..) | Val::CanonMapLens(..)) { add("canon_lens_in_triplet", &mut v); } }
+                for a in args { val(a, &mut v); }
+            }
+            Instr::Match(a, b, _) | Instr::Mismatch(a, b, _) => { val(a, &mut v); val(b, &mut v); }
+            Instr::Ap { arg, .. } => val(arg, &mut v),
+            Instr::ApMap { key, val: x, .. } => {
+                add("ap_map", &mut v); val(x, &mut v);
+                match key { Val::Lit(_) => add("ap_map_str_key", &mut v), Val::Num(_) => add("ap_map_int_key", &mut v), Val::CanonLens(..) => add("ap_map_canon_lens_key", &mut v), _ => add("ap_map_scalar_key", &mut v) }
+            }
+            Instr::CanonMap { .. } => add("canon_map", &mut v),
+            Instr::CanonMapScalar { .. } => add("canon_map_scalar", &mut v),
+            Instr::FoldMap { .. } => add("fold_map", &mut v),
+            Instr::FoldScalar { iterable, .. } => match iterable { Val::CanonMap(_) => add("fold_canon_map", &mut v), Val::CanonMapLens(..) => add("fold_canon_map_lens", &mut v), _ => {} },
+            Instr::New(NewVar::StreamMap(_), _) => add("new_map", &mut v),
+            Instr::New(NewVar::CanonMap(_), _) => add("new_canon_map", &mut v),
+            Instr::New(NewVar::Canon(_), _) => add("new_canon", &mut v),
+            Instr::Fail(FailArg::CanonLens(..)) => add("fail_canon_lens", &mut v),
+            _ => {}
+        });
+        v
     }
     pub fn kinds(&self) -> Vec<&'static str> {
         let mut v = vec![];
@@ -245,6 +278,11 @@ impl<'a> Gen<'a> {
             }
         }
         for (n, k, _) in &env.iters { if *k == Kind::Peer { opts.push(Val::Scalar(n.clone())); } }
+        if self.cfg.streams && !self.cfg.fragment {
+            // canon lenses in a triplet part (a non-string value is a catchable error)
+            for n in &env.canons { opts.push(Val::CanonLens(n.clone(), ".$.[0]".into())); }
+            for n in &env.canon_maps { opts.push(Val::CanonMapLens(n.clone(), ".$.kp.[0]".into())); }
+        }
         let r = self.rng.below(10);
         if r < 5 || (opts.is_empty() && r < 8) { self.peer_lit() }
         else if r < 7 || opts.is_empty() { Val::InitPeer }
@@ -276,7 +314,22 @@ impl<'a> Gen<'a> {
             opts.push((Val::CanonLens(n.clone(), ".$.[0]".into()), Kind::Any));
             opts.push((Val::CanonLens(n.clone(), ".length".into()), Kind::Num));
         }
-        for n in &env.canon_maps { opts.push((Val::CanonMap(n.clone()), Kind::Obj)); }
+        for n in &env.canon_maps {
+            opts.push((Val::CanonMap(n.clone()), Kind::Obj));
+            if !self.cfg.fragment {
+                let keyed = [".$.k0", ".$.k1.[0]", ".$.k2.[1]", ".$.[1]", ".$.[2].[0]", ".$.kp.[0]", ".$.nokey", ".$.nokey.[0]", ".length", ".$.k0.[0].arr.[1]", ".$.k1.[0].n"];
+                opts.push((Val::CanonMapLens(n.clone(), keyed[self.rng.below(keyed.len())].into()), Kind::Any));
+                // key / index taken from a scalar
+                if let Some((s, _)) = env.scalars.iter().find(|(_, k)| matches!(k, Kind::Str | Kind::Num)) { opts.push((Val::CanonMapLens(n.clone(), format!(".$.[{s}]")), Kind::Any)); }
+            }
+        }
+        if self.cfg.streams && !self.cfg.fragment {
+            for n in &env.canons {
+                let l = [".$.[1]", ".$.[0].n", ".$.[0].arr.[0]", ".$.[7]", ".$.field"];
+                opts.push((Val::CanonLens(n.clone(), l[self.rng.below(l.len())].into()), Kind::Any));
+                if let Some((s, _)) = env.scalars.iter().find(|(_, k)| matches!(k, Kind::Num)) { opts.push((Val::CanonLens(n.clone(), format!(".$.[{s}]")), Kind::Any)); }
+            }
+        }
         let r = self.rng.below(12);
         if !opts.is_empty() && r < 7 { return opts[self.rng.below(opts.len())].clone(); }
         match r % 7 {
@@ -307,7 +360,15 @@ impl<'a> Gen<'a> {
                   else if r < 8 && allow_stream_out && self.cfg.streams && !env.free_streams().is_empty() { let fs = env.free_streams(); Out::Stream(self.rng.pick(&fs).clone()) }
                   else if r < 8 && allow_stream_out && self.cfg.streams { let n = self.fresh("$s"); env.streams.push(n.clone()); Out::Stream(n) }
                   else { Out::None };
-        Instr::Call { peer, svc: Val::Lit("svc".into()), func, args, out }
+        let mut svc = Val::Lit("svc".into());
+        if self.cfg.streams && !self.cfg.fragment && self.rng.chance(1, 12) {
+            // the service id through a canon lens / canon map lens (the simulated services ignore the service id)
+            let mut o: Vec<Val> = vec![];
+            for n in &env.canons { o.push(Val::CanonLens(n.clone(), ".$.[0]".into())); }
+            for n in &env.canon_maps { o.push(Val::CanonMapLens(n.clone(), ".$.k0.[0]".into())); o.push(Val::CanonMapLens(n.clone(), ".$.kp.[0]".into())); }
+            if !o.is_empty() { svc = o[self.rng.below(o.len())].clone(); }
+        }
+        Instr::Call { peer, svc, func, args, out }
     }
 
     /// guard a possibly failing instruction in fragment mode
@@ -366,7 +427,7 @@ impl<'a> Gen<'a> {
             self.fold(env, budget, depth)
         } else if r < 82 {
             // new
-            let kind = self.rng.below(if self.cfg.streams { 3 } else { 1 });
+            let kind = self.rng.below(if self.cfg.streams { if self.cfg.fragment { 3 } else { 5 } } else { 1 });
             match kind {
                 0 => {
                     let n = self.fresh("v");
@@ -378,16 +439,40 @@ impl<'a> Gen<'a> {
                     Instr::New(NewVar::Scalar(n), Box::new(seq(set, rest)))
                 }
                 1 => {
-                    let n = self.fresh("$s");
-                    let mut inner = env.clone(); inner.streams.push(n.clone());
+                    // a fresh name, or (nested scopes of one name: the innermost instance is the one written and read) an existing one
+                    let n = if !self.cfg.fragment && !env.streams.is_empty() && self.rng.chance(1, 3) { self.rng.pick(&env.streams).clone() } else { self.fresh("$s") };
+                    let mut inner = env.clone(); if !inner.streams.contains(&n) { inner.streams.push(n.clone()); }
                     let body = self.instr(&mut inner, budget - 1, depth + 1);
                     Instr::New(NewVar::Stream(n), Box::new(body))
                 }
-                _ => {
-                    let n = self.fresh("%m");
-                    let mut inner = env.clone(); inner.maps.push(n.clone());
+                2 => {
+                    let n = if !self.cfg.fragment && !env.maps.is_empty() && self.rng.chance(1, 3) { self.rng.pick(&env.maps).clone() } else { self.fresh("%m") };
+                    let mut inner = env.clone(); if !inner.maps.contains(&n) { inner.maps.push(n.clone()); }
                     let body = self.instr(&mut inner, budget - 1, depth + 1);
                     Instr::New(NewVar::StreamMap(n), Box::new(body))
+                }
+                3 => {
+                    // new #canon: an existing canon name is shadowed (uses before the inner canon fail catchably), or a fresh one
+                    let n = if !env.canons.is_empty() && self.rng.chance(1, 2) { self.rng.pick(&env.canons).clone() } else { self.fresh("#c") };
+                    let mut inner = env.clone();
+                    let s = if !inner.streams.is_empty() { self.rng.pick(&inner.streams).clone() } else { let s = self.fresh("$s"); inner.streams.push(s.clone()); s };
+                    let fill = Instr::Ap { arg: self.arg(env).0, out: Out::Stream(s.clone()) };
+                    let canon = Instr::Canon { peer: self.target(env), stream: s, canon: n.clone() };
+                    if !inner.canons.contains(&n) { inner.canons.push(n.clone()); }
+                    let rest = self.instr(&mut inner, budget.saturating_sub(3).max(1), depth + 1);
+                    let body = if self.rng.chance(1, 5) { seq(rest, seq(fill, canon)) } else { seq(fill, seq(canon, rest)) };
+                    Instr::New(NewVar::Canon(n), Box::new(body))
+                }
+                _ => {
+                    let n = if !env.canon_maps.is_empty() && self.rng.chance(1, 2) { self.rng.pick(&env.canon_maps).clone() } else { self.fresh("#%c") };
+                    let mut inner = env.clone();
+                    let m = if !inner.maps.is_empty() { self.rng.pick(&inner.maps).clone() } else { let m = self.fresh("%m"); inner.maps.push(m.clone()); m };
+                    let fill = self.ap_map(env, m.clone());
+                    let canon = Instr::CanonMap { peer: self.target(env), map: m, canon: n.clone() };
+                    if !inner.canon_maps.contains(&n) { inner.canon_maps.push(n.clone()); }
+                    let rest = self.instr(&mut inner, budget.saturating_sub(3).max(1), depth + 1);
+                    let body = if self.rng.chance(1, 5) { seq(rest, seq(fill, canon)) } else { seq(fill, seq(canon, rest)) };
+                    Instr::New(NewVar::CanonMap(n), Box::new(body))
                 }
             }
         } else { self.leaf(env) }
@@ -405,7 +490,13 @@ impl<'a> Gen<'a> {
             }
         }
         for n in &env.canons { scalar_iterables.push((Val::Canon(n.clone()), Kind::Any)); }
-        for n in &env.canon_maps { scalar_iterables.push((Val::CanonMap(n.clone()), Kind::Obj)); }
+        for n in &env.canon_maps {
+            scalar_iterables.push((Val::CanonMap(n.clone()), Kind::Obj));
+            if !self.cfg.fragment {
+                let l = [".$.k0", ".$.k1", ".$.[1]", ".$.kp", ".$.nokey", ".$.k0.[0]", ".length"];
+                scalar_iterables.push((Val::CanonMapLens(n.clone(), l[self.rng.below(l.len())].into()), Kind::Any));
+            }
+        }
         let it = self.fresh("i");
         let stream_fold = self.cfg.streams && !env.streams.is_empty() && self.rng.chance(2, 5);
         let map_fold = !stream_fold && self.cfg.streams && !env.maps.is_empty() && self.rng.chance(1, 5);
@@ -442,6 +533,35 @@ impl<'a> Gen<'a> {
                 else if map_fold { Instr::FoldMap { map: folded_name.clone().unwrap(), iter: it, body: Box::new(body), last } }
                 else { Instr::FoldScalar { iterable, iter: it, body: Box::new(body), last } };
         self.guard(f, env)
+    }
+
+    /// `(ap (key value) %map)`: string, integer and mixed keys (string keys never look like integers: `"1"` vs `1`
+    /// collide in the canon map's JSON rendering — known finding canon-map-key-collision of C20, kept out of the
+    /// generic generator); keys through scalars, scalar lenses and canon lenses (possibly of an unsupported type)
+    fn ap_map(&mut self, env: &mut Env, m: String) -> Instr {
+        let mut key = match self.rng.below(6) {
+            0 | 1 => Val::Lit(format!("k{}", self.rng.below(3))),
+            2 => Val::Num(self.rng.range(0, 3)),
+            3 => Val::Lit("k0".into()),
+            4 => Val::Num(self.rng.range(-2, 40)),
+            _ => Val::Lit("k1".into()),
+        };
+        if !self.cfg.fragment && self.rng.chance(1, 4) {
+            let mut o: Vec<Val> = vec![];
+            for (n, k) in &env.scalars {
+                match k {
+                    Kind::Str | Kind::Num | Kind::Any | Kind::Peer => o.push(Val::Scalar(n.clone())),
+                    Kind::Obj => { o.push(Val::ScalarLens(n.clone(), ".$.s".into())); o.push(Val::ScalarLens(n.clone(), ".$.n".into())); o.push(Val::ScalarLens(n.clone(), ".$.arr".into())); }
+                    _ => {}
+                }
+            }
+            for (n, _, _) in &env.iters { o.push(Val::Scalar(n.clone())); }
+            for n in &env.canons { o.push(Val::CanonLens(n.clone(), ".$.[0]".into())); o.push(Val::CanonLens(n.clone(), ".length".into())); }
+            if !o.is_empty() { key = o[self.rng.below(o.len())].clone(); }
+        }
+        // a peer-valued entry under "kp" feeds canon-map lenses in triplets
+        let (key, val) = if self.rng.chance(1, 6) { (Val::Lit("kp".into()), if self.rng.chance(1, 2) { self.peer_lit() } else { Val::InitPeer }) } else { (key, self.arg(env).0) };
+        Instr::ApMap { key, val, map: m }
     }
 
     fn leaf(&mut self, env: &mut Env) -> Instr {
@@ -483,17 +603,29 @@ impl<'a> Gen<'a> {
                 else { let v = self.fresh("v"); env.scalars.push((v.clone(), Kind::Obj)); Instr::CanonMapScalar { peer: self.target(env), map: m, scalar: v } }
             } else { self.call(env, true) }
         } else if r < 80 && self.cfg.streams {
+            // bounded recursion into a map an enclosing fold iterates: guarded by a match on the iterated pair
+            if !env.folding.is_empty() && self.rng.chance(1, 4) {
+                let (st, it) = self.rng.pick(&env.folding).clone();
+                if st.starts_with('%') {
+                    let i = Instr::Match(Val::ScalarLens(it, ".$.key".into()), Val::Lit("k0".into()), Box::new(Instr::ApMap { key: Val::Lit("k1".into()), val: Val::Lit("lit1".into()), map: st }));
+                    return self.guard(i, env);
+                }
+            }
             let fm = env.free_maps();
             let m = if !fm.is_empty() && self.rng.chance(2, 3) { self.rng.pick(&fm).clone() } else { let n = self.fresh("%m"); env.maps.push(n.clone()); n };
-            let key = match self.rng.below(3) { 0 => Val::Lit(format!("k{}", self.rng.below(3))), 1 => Val::Num(self.rng.range(0, 3)), _ => Val::Lit("k0".into()) };
-            Instr::ApMap { key, val: self.arg(env).0, map: m }
+            let i = self.ap_map(env, m);
+            self.guard(i, env)
         } else if r < 86 {
-            let f = match self.rng.below(4) {
+            let canon_fail = self.cfg.streams && !self.cfg.fragment && !env.canons.is_empty() && self.rng.chance(1, 4);
+            let f = if canon_fail {
+                // the element is rarely a well-formed error object: mostly InvalidErrorObjectError, sometimes UserError
+                FailArg::CanonLens(self.rng.pick(&env.canons).clone(), if self.rng.chance(1, 2) { ".$.[0]".into() } else { ".$.[1]".into() })
+            } else { match self.rng.below(4) {
                 0 => FailArg::Lit(self.rng.range(1, 9), format!("msg{}", self.rng.below(3))),
                 1 => FailArg::LastError,
                 2 => FailArg::Error,
                 _ => FailArg::Lit(1337, "boom".into()),
-            };
+            } };
             if self.cfg.fragment && !self.in_xor_left { Instr::Null } else { Instr::Fail(f) }
         } else if r < 94 { Instr::Null }
         else if r < 96 { Instr::Never }
@@ -507,12 +639,79 @@ impl<'a> Gen<'a> {
 fn lit(s: &str) -> Val { Val::Lit(s.to_string()) }
 fn callp(peer: &str, func: &str, args: Vec<Val>, out: Out) -> Instr { Instr::Call { peer: lit(peer), svc: lit("svc"), func: lit(func), args, out } }
 
+/// switched on by the C13 check only (see template 8)
+pub static MAP_FOLD_RECURSION: std::sync::atomic::AtomicBool = std::sync::atomic::AtomicBool::new(false);
+
 pub fn template(rng: &mut Rng, peers: &[String]) -> Instr {
     let n = peers.len();
     let p = |rng: &mut Rng| peers[rng.below(n)].clone();
     let mut c = 0usize;
     let mut f = |k: &str| { c += 1; format!("{k}_{}", c + 100) };
-    match rng.below(8) {
+    // the map / canon-lens templates (8, 9, 10) get a third of the weight
+    let which = if rng.chance(1, 4) { 8 + rng.below(3) } else { rng.below(12) };
+    match which {
+        8 => {
+            // a stream map filled on several peers (string and integer keys), folded (recursively: the body appends once), canonicalised both ways
+            let w1 = seq(callp(&p(rng), &f("str"), vec![], Out::Scalar("a".into())), Instr::ApMap { key: lit("k0"), val: Val::Scalar("a".into()), map: "%m".into() });
+            let w2 = seq(callp(&p(rng), &f("obj"), vec![], Out::Scalar("b".into())), Instr::ApMap { key: Val::Num(1), val: Val::Scalar("b".into()), map: "%m".into() });
+            let w3 = Instr::ApMap { key: if rng.chance(1, 2) { lit("k0") } else { Val::Num(2) }, val: Val::Timestamp, map: "%m".into() };
+            let fill = if rng.chance(1, 2) { par(w1, par(w2, w3)) } else { seq(w1, seq(w2, w3)) };
+            // a key that is still pending when the `ap` is first met (joins), and nested scopes of the same map name
+            let fill = if rng.chance(1, 2) { seq(fill, seq(par(callp(&p(rng), &f("str"), vec![], Out::Scalar("kx".into())), Instr::Null), Instr::ApMap { key: Val::Scalar("kx".into()), val: lit("late"), map: "%m".into() })) } else { fill };
+            let fill = if rng.chance(1, 3) {
+                let inner = Instr::New(NewVar::StreamMap("%m".into()), Box::new(seq(Instr::ApMap { key: lit("inner"), val: Val::Num(1), map: "%m".into() },
+                    seq(Instr::CanonMap { peer: lit(&p(rng)), map: "%m".into(), canon: "#%in".into() }, callp(&p(rng), &f("echo"), vec![Val::CanonMap("#%in".into())], Out::None)))));
+                seq(fill, Instr::New(NewVar::StreamMap("%m".into()), Box::new(seq(Instr::ApMap { key: lit("mid"), val: Val::Num(2), map: "%m".into() }, seq(inner, seq(Instr::ApMap { key: lit("mid2"), val: Val::Num(3), map: "%m".into() },
+                    seq(Instr::CanonMap { peer: lit(&p(rng)), map: "%m".into(), canon: "#%mid".into() }, callp(&p(rng), &f("echo"), vec![Val::CanonMap("#%mid".into())], Out::None))))))))
+            } else { fill };
+            let rec = Instr::Match(Val::ScalarLens("i".into(), ".$.key".into()), lit("k0"), Box::new(Instr::ApMap { key: lit("k9"), val: Val::ScalarLens("i".into(), ".$.value".into()), map: "%m".into() }));
+            let work = callp(&p(rng), &f("echo"), vec![Val::ScalarLens("i".into(), ".$.value".into()), Val::ScalarLens("i".into(), ".$.key".into())], if rng.chance(1, 2) { Out::Stream("$r".into()) } else { Out::None });
+            // (a recursive append `rec` in the body makes the direct oracles of C05/C06/C07/C09 fail on the unchanged tree: call results of
+            //  a fold iteration are lost when the fold over the map is re-entered — the defect behind the known finding
+            //  recursive-fold-skips-value-below-generation-cursor of C13; the recursive variant is generated for C13 only, which classifies it)
+            let inner = if MAP_FOLD_RECURSION.load(std::sync::atomic::Ordering::Relaxed) && rng.chance(1, 2) { seq(work, xor(rec, Instr::Null)) } else { let _ = &rec; work };
+            let body = if rng.chance(1, 2) { par(inner, Instr::Next("i".into())) } else { seq(inner, Instr::Next("i".into())) };
+            let fold = Instr::FoldMap { map: "%m".into(), iter: "i".into(), body: Box::new(body), last: if rng.chance(1, 3) { Some(Box::new(callp(&p(rng), &f("str"), vec![], Out::None))) } else { None } };
+            let c1 = Instr::CanonMapScalar { peer: lit(&p(rng)), map: "%m".into(), scalar: "obj".into() };
+            let c2 = Instr::CanonMap { peer: lit(&p(rng)), map: "%m".into(), canon: "#%cm".into() };
+            let use_ = callp(&p(rng), &f("echo"), vec![Val::Scalar("obj".into()), Val::CanonMap("#%cm".into()), Val::CanonMapLens("#%cm".into(), ".length".into())], Out::None);
+            seq(fill, seq(if rng.chance(1, 2) { par(fold, Instr::Null) } else { fold }, seq(c1, seq(c2, use_))))
+        }
+        9 => {
+            // canon map lenses everywhere: call arguments, ap, match, fold iterables, triplet parts, keys taken from scalars
+            let who = p(rng);
+            let m = seq(Instr::ApMap { key: lit("k1"), val: lit(&who), map: "%m".into() },
+                    seq(Instr::ApMap { key: Val::Num(2), val: Val::InitPeer, map: "%m".into() },
+                    seq(callp(&p(rng), &f("obj"), vec![], Out::Scalar("o".into())),
+                    seq(Instr::ApMap { key: Val::ScalarLens("o".into(), ".$.s".into()), val: Val::Scalar("o".into()), map: "%m".into() },
+                        Instr::ApMap { key: lit("k1"), val: Val::ScalarLens("o".into(), ".$.peer".into()), map: "%m".into() }))));
+            let canon = Instr::CanonMap { peer: lit(&p(rng)), map: "%m".into(), canon: "#%cm".into() };
+            let args = vec![Val::CanonMapLens("#%cm".into(), ".$.k1".into()), Val::CanonMapLens("#%cm".into(), ".$.k1.[1]".into()), Val::CanonMapLens("#%cm".into(), ".$.[2]".into()),
+                            Val::CanonMapLens("#%cm".into(), ".$.[2].[0]".into()), Val::CanonMapLens("#%cm".into(), ".length".into()), Val::CanonMapLens("#%cm".into(), ".$.nokey".into())];
+            let u1 = callp(&p(rng), &f("echo"), args, Out::Scalar("e".into()));
+            let u2 = Instr::Call { peer: Val::CanonMapLens("#%cm".into(), ".$.k1.[0]".into()), svc: Val::CanonMapLens("#%cm".into(), ".$.k1.[1]".into()), func: lit(&f("str")), args: vec![Val::CanonMapLens("#%cm".into(), ".$.s0.[0].nested.a.[1]".into())], out: Out::None };
+            let u3 = seq(callp(&p(rng), &f("str"), vec![], Out::Scalar("key".into())), seq(Instr::Ap { arg: Val::CanonMapLens("#%cm".into(), ".$.[key]".into()), out: Out::Scalar("byk".into()) },
+                         Instr::Ap { arg: Val::CanonMapLens("#%cm".into(), ".$.k1".into()), out: Out::Stream("$all".into()) }));
+            let f1 = Instr::FoldScalar { iterable: Val::CanonMap("#%cm".into()), iter: "i".into(), body: Box::new(seq(callp(&p(rng), &f("echo"), vec![Val::Scalar("i".into())], Out::None), Instr::Next("i".into()))), last: None };
+            let f2 = Instr::FoldScalar { iterable: Val::CanonMapLens("#%cm".into(), ".$.k1".into()), iter: "j".into(), body: Box::new(seq(callp(&p(rng), &f("echo"), vec![Val::Scalar("j".into())], Out::None), Instr::Next("j".into()))), last: None };
+            let mm = Instr::Match(Val::CanonMapLens("#%cm".into(), ".$.k1.[0]".into()), lit(&who), Box::new(callp(&p(rng), &f("str"), vec![], Out::None)));
+            let tail = match rng.below(4) { 0 => seq(u1, seq(u2, f1)), 1 => seq(u1, seq(xor(u3, Instr::Null), f2)), 2 => seq(par(u1, u2), xor(mm, Instr::Null)), _ => seq(f1, seq(f2, u1)) };
+            seq(m, seq(canon, tail))
+        }
+        10 => {
+            // canon stream lenses in ap / fail / map keys / triplets, `new` on canon names (a ONE-letter canon name with a lens, `#c.$.[0]`, is rejected by the lexer: "a canon name should be non empty" — reported)
+            let fill = seq(callp(&p(rng), &f("peer"), vec![], Out::Stream("$s".into())), seq(callp(&p(rng), &f("obj"), vec![], Out::Stream("$s".into())), Instr::Ap { arg: Val::Num(7), out: Out::Stream("$s".into()) }));
+            let canon = Instr::Canon { peer: lit(&p(rng)), stream: "$s".into(), canon: "#cs".into() };
+            let k = Instr::ApMap { key: Val::CanonLens("#cs".into(), if rng.chance(1, 2) { ".$.[0]".into() } else { ".$.[2]".into() }), val: Val::CanonLens("#cs".into(), ".$.[1].n".into()), map: "%m".into() };
+            let k2 = xor(Instr::ApMap { key: Val::CanonLens("#cs".into(), ".$.[1]".into()), val: lit("never"), map: "%m".into() }, callp(&p(rng), &f("echo"), vec![Val::Error(Some(".$.message".into()))], Out::None));
+            let call = Instr::Call { peer: Val::CanonLens("#cs".into(), ".$.[0]".into()), svc: lit("svc"), func: lit(&f("str")), args: vec![Val::CanonLens("#cs".into(), ".length".into()), Val::CanonLens("#cs".into(), ".$.[1].arr".into())], out: Out::Scalar("r".into()) };
+            let fl = xor(Instr::Fail(FailArg::CanonLens("#cs".into(), ".$.[1]".into())), callp(&p(rng), &f("echo"), vec![Val::LastError(None)], Out::None));
+            let scoped = Instr::New(NewVar::CanonMap("#%cm".into()), Box::new(seq(Instr::CanonMap { peer: lit(&p(rng)), map: "%m".into(), canon: "#%cm".into() },
+                            callp(&p(rng), &f("echo"), vec![Val::CanonMap("#%cm".into())], Out::None))));
+            let scoped2 = Instr::New(NewVar::Canon("#cs".into()), Box::new(xor(callp(&p(rng), &f("echo"), vec![Val::Canon("#cs".into())], Out::None), Instr::Null)));
+            let tail = match rng.below(3) { 0 => seq(k, seq(k2, scoped)), 1 => seq(call, seq(fl, scoped2)), _ => seq(k, seq(call, par(scoped, fl))) };
+            seq(fill, seq(canon, tail))
+        }
         6 => {
             // several values in one generation, sequential fold body with a call per value (stalls mid-generation), optional tail after next
             let n = 2 + rng.below(3);
